@@ -9,6 +9,9 @@ A family is a module `hv/scenarios/fam_<name>.py` with
     COMPONENTS  : list[str]                 library classes the scenario instantiates
     MODEL       : str | None                property id in /verif that has a Lean model of this family
     gen_cfg(rng: random.Random) -> dict     JSON-able configuration drawn only from `rng`
+    gen_cfg_wide(rng) -> dict               (optional) the family's maximum-coverage configuration: every policy /
+                                            strategy variant at once, sizes above the library's internal constants,
+                                            sustained overload, durations on the lossy seconds->ns boundary
     build(cfg: dict, seed: int) -> (Simulation, observers)
 
 `observers` is a dict `label -> zero-argument callable` returning JSON-like statistics
@@ -53,3 +56,11 @@ def families() -> dict:
 
 def family(name: str):
     return families()[name]
+
+
+def draw_cfg(fam, rng, wide_p: float = 0.4):
+    """one configuration of a family: with probability `wide_p` its maximum-coverage one (if it defines one)"""
+    wide = getattr(fam, "gen_cfg_wide", None)
+    if wide is not None and rng.random() < wide_p:
+        return wide(rng)
+    return fam.gen_cfg(rng)
